@@ -309,7 +309,7 @@ func NewWorld(cfg Config) *World {
 //
 //	rN  receive N messages        rA  receive until an error (EOF included)        f  RawFlush
 //	sN:L send N messages of body length L   c  CloseSend
-//	w   wait for the stream context to be done
+//	w   wait for the stream context to be done      u  receive one message that cannot be decoded, return the error
 //	eK  return an error with drpc code K    x  return nil
 type handler struct{ w *World }
 
@@ -365,6 +365,14 @@ func (h handler) HandleRPC(stream drpc.Stream, rpc string) error {
 				}
 				w.logf("H%d:sent:%d", idx, seq)
 				seq++
+			}
+		case 'u': // receive one message that the handler's encoding cannot decode, and give up with that error
+			var in []byte
+			err := stream.MsgRecv(&in, &sm.Enc{Fail: true})
+			w.logf("H%d:recverr:%s", idx, errName(err))
+			if err != nil {
+				w.logf("H%d:ret:%s", idx, errName(err))
+				return err
 			}
 		case 'c':
 			err := stream.CloseSend()
@@ -530,6 +538,18 @@ func (w *World) Do(act string) string {
 			}
 			var out []byte
 			if err := st.MsgRecv(&out, w.enc); err != nil {
+				return errName(err)
+			}
+			return "ok:" + Describe(out)
+		})
+	case "rcvf": // rcvf!op!idx : a receive whose Unmarshal fails
+		st := w.stream(atoi(f[2]))
+		w.issue(f[1], func() string {
+			if st == nil {
+				return "nostream"
+			}
+			var out []byte
+			if err := st.MsgRecv(&out, &sm.Enc{Fail: true}); err != nil {
 				return errName(err)
 			}
 			return "ok:" + Describe(out)
